@@ -102,3 +102,11 @@ impl UdpSocket {
         Ok(())
     }
 }
+
+#[cfg(feature = "verif")]
+impl UdpSocket {
+    /// The address the socket is bound to.
+    pub fn verif_local_addr(&self) -> io::Result<SocketAddr> {
+        self.socket.local_addr()
+    }
+}
